@@ -1974,7 +1974,8 @@ EbErrorType read_uncompressed_header(Bitstrm *bs, EbDecHandle *dec_handle_ptr, O
                 int gold_frame_idx = dec_get_bits(bs, 3);
                 PRINT_FRAME("last_frame_idx", last_frame_idx);
                 PRINT_FRAME("gold_frame_idx", gold_frame_idx);
-                svt_set_frame_refs(dec_handle_ptr, last_frame_idx, gold_frame_idx);
+                if (svt_set_frame_refs(dec_handle_ptr, last_frame_idx, gold_frame_idx) != EB_ErrorNone)
+                    return EB_Corrupt_Frame;
             }
         }
 
@@ -2033,7 +2034,7 @@ EbErrorType read_uncompressed_header(Bitstrm *bs, EbDecHandle *dec_handle_ptr, O
             SVT_LOG(
                 "Reference frame containing this frame's initial "
                 "frame context is unavailable.");
-            assert(0);
+            return EB_Corrupt_Frame;
         }
         if (frame_info->error_resilient_mode || !seq_header->order_hint_info.enable_ref_frame_mvs)
             frame_info->use_ref_frame_mvs = 0;
@@ -2053,7 +2054,7 @@ EbErrorType read_uncompressed_header(Bitstrm *bs, EbDecHandle *dec_handle_ptr, O
 
             if ((!av1_is_valid_scale(ref_scale_factors))) {
                 SVT_LOG("\n Reference frame has invalid dimensions \n");
-                assert(0);
+                return EB_Corrupt_Frame;
             }
         }
     }
